@@ -163,9 +163,14 @@ def run_unit(arg):
                             d.update(verdict="refuted", solver=ob.solver, note=ob.note, witness_confirmed=True, witness=wit)
                     except BaseException as e:  # noqa
                         d["note"] = (d.get("note") or "") + f" [witness error {e!r}]"[:200]
+            if ob.verdict == "unknown" and c is not None and ob.kind.startswith("loop") and _try_contract_witnesses(c, d):
+                # the solver could not decide an invariant obligation, but a witness of the contract shows the real
+                # function violating a post-condition: a genuine deviation, established by concrete execution only
+                ob.verdict, ob.solver = "refuted", "native-witness"
+                d.update(verdict="refuted", solver="native-witness")
             if ob.verdict == "refuted":
                 inputs = ob.model if isinstance(ob.model, dict) else {}
-                d["model_inputs"] = inputs
+                d.setdefault("model_inputs", inputs)
                 d["goal"] = ob.goal.sexpr()[:2000]
                 if kind == "lemma" and isinstance(ob.model, dict):
                     try:
@@ -203,6 +208,8 @@ def run_unit(arg):
                         d["replay"] = rp
                         d["carries"] = True
                         d["note"] = (d.get("note") or "") + " [counter-model of the invariant obligation violates a post-condition natively]"
+                    elif _try_contract_witnesses(c, d):
+                        pass  # an explicit witness of the contract fails natively on the real function
                     elif not searched.get(key):
                         # the model describes an arbitrary iteration, not an input: bounded native search for an input
                         # on which the real function violates its contract (finding none claims nothing: UNDECIDED)
@@ -231,6 +238,26 @@ def run_unit(arg):
         out["crash"] = traceback.format_exc()
     out["wall_s"] = time.time() - t0
     return out
+
+
+def _try_contract_witnesses(c, d):
+    """Run every `witness_*` input of the contract natively on the REAL function; True (and `d` updated) when one
+    satisfies `requires` and violates a post-condition. Used for invariant obligations the solver refuted / could not
+    decide: the invariant itself is a proof artefact, a concretely failing run is not."""
+    from pyvc import native
+    for name in sorted(n for n in c.methods if n.startswith("witness_")):
+        try:
+            wit = c.native(name)()
+            rp = native.replay(c, wit)
+        except BaseException:  # noqa
+            continue
+        from pyvc.ex_call import _refuted_known
+        bad = [f for f in (rp.get("failed_clauses") or []) if not _refuted_known(f"{c.target}/post.{f}")]
+        if rp.get("confirmed") and bad and rp.get("requires_holds") is not False:  # (listed known findings do not count)
+            d.update(replay=rp, carries=True, witness=wit, witness_confirmed=True, model_inputs=wit)
+            d["note"] = (d.get("note") or "") + f" [contract witness {name} violates {rp.get('failed_clauses')} natively]"
+            return True
+    return False
 
 
 def load_known(prop):
